@@ -70,7 +70,7 @@ def showRows (l : List String) : String := if l.isEmpty then "()" else "".interc
 
 def raw (d : Db) : String :=
   let pl := d.pl.map fun r => s!"({r.id},s{hexBytes r.val},{r.key},1,{r.next},1)"
-  let pe := d.pe.map fun r => s!"({r.id},{r.key},{r.val},{r.next},0,1)"
+  let pe := d.pe.map fun r => s!"({r.id},{r.key},{r.val.track},{r.next},0,{r.val.uuid})"
   let tr := d.tracks.map fun t => s!"({t})"
   s!"Playlist{showRows pl} PlaylistEntity{showRows pe} Track{showRows tr} seq({d.plSeq},{d.peSeq},{d.trSeq})"
 
@@ -148,10 +148,10 @@ def step (st : St) (cmd : String) (args : List String) : St × String :=
     match i.toInt? with
     | some i => if qValid st.db i then ({ st with crates := bind st.crates v i }, s!"ok id={i}") else (st, "ok none")
     | none => (st, "bad-op args")
-  | "pe.add", [l, t, f] =>
-    match l.toInt?, t.toInt? with
-    | some l, some t => doOp st (.peAddBack l t (f == "1"))
-    | _, _ => (st, "bad-op args")
+  | "pe.add", [l, t, u, f] =>
+    match l.toInt?, t.toInt?, u.toInt? with
+    | some l, some t, some u => doOp st (.peAddBack l t u (f == "1"))
+    | _, _, _ => (st, "bad-op args")
   | "pe.remove", [l, e] =>
     match l.toInt?, e.toInt? with
     | some l, some e => doOp st (.peRemove l e)
@@ -166,7 +166,7 @@ def step (st : St) (cmd : String) (args : List String) : St × String :=
       (st, render do
         let es ← qEntities st.db l
         let ts ← qTracks st.db l
-        pure s!"[{",".intercalate (es.map fun (e, t) => s!"{e}:{t}")}] {showIds ts}")
+        pure s!"[{",".intercalate (es.map fun (e, t, u) => s!"{e}:{t}:{u}")}] {showIds ts}")
     | none => (st, "bad-op args")
   | "pl.list", [p] =>
     match p.toInt? with
